@@ -20,7 +20,8 @@ def configKeys : List Name := [
   n!"MAX_BLOB_COMMITMENTS_PER_BLOCK",
   n!"PENDING_DEPOSITS_LIMIT", n!"PENDING_PARTIAL_WITHDRAWALS_LIMIT", n!"PENDING_CONSOLIDATIONS_LIMIT",
   n!"MAX_ATTESTER_SLASHINGS_ELECTRA", n!"MAX_ATTESTATIONS_ELECTRA",
-  n!"MAX_CONSOLIDATION_REQUESTS_PER_PAYLOAD", n!"MAX_DEPOSIT_REQUESTS_PER_PAYLOAD", n!"MAX_WITHDRAWAL_REQUESTS_PER_PAYLOAD"]
+  n!"MAX_CONSOLIDATION_REQUESTS_PER_PAYLOAD", n!"MAX_DEPOSIT_REQUESTS_PER_PAYLOAD", n!"MAX_WITHDRAWAL_REQUESTS_PER_PAYLOAD",
+  n!"MAX_EXTRA_DATA_BYTES", n!"BYTES_PER_LOGS_BLOOM"]
 
 /-- configuration from the positional value list of an op line -/
 def configOf (vals : List Nat) : Config := fun k =>
